@@ -127,7 +127,7 @@ def _load_helper_coeffs(
             words = line.split()
             ncol = len(words)
             if ncol == 0:
-                raise LoadError("Expect irrep, got empty line", line)
+                raise LoadError("Expect irrep, got empty line", lit)
             irreps.extend(words)
             cols = [np.zeros((nbasis, 1), float) for _ in range(ncol)]
             in_orb = 1
